@@ -246,7 +246,11 @@ func RunC15(rep *explore.Report, tier string) {
 		// configurations with threshold amount classes instead of every integer
 		var small []*Config
 		for _, c := range grid {
-			c.Amounts = "classes"
+			if c.Amounts == "all" {
+				if c.Amounts == "all" {
+					c.Amounts = "classes"
+				}
+			}
 			var sum int64
 			for _, b := range c.Bankroll {
 				sum += b
